@@ -108,7 +108,7 @@ def run_ops(ops):
             elif k == "clearnames":
                 b.set_command_names()
             elif k == "build":
-                base = b.format
+                base = ArgsFormat(b) if alt else b.format
                 bases.append((base, table(base)))
                 b = ArgsFormatBuilder(base)
             elif k == "construct":
@@ -123,7 +123,7 @@ def run_ops(ops):
         # the format object handed out before this operation, and every format stacked below the builder
         ev["snapThen"] = [snap_then] + [t for _f, t in bases]
         ev["snapNow"] = [table(snap)] + [table(f) for f, _t in bases]
-        snap = b.format
+        snap = ArgsFormat(b) if len(out) % 3 == 2 else b.format   # the two routes from a builder to its format
         snap_then = table(snap)
         ev["tf"] = snap_then
         out.append(ev)
